@@ -24,6 +24,8 @@ from typing import TYPE_CHECKING, List, Optional, Set, Tuple, Union, cast
 
 from .._cache import DNSCache, _UniqueRecordsType
 from .._dns import DNSAddress, DNSPointer, DNSQuestion, DNSRecord, DNSRRSet
+from .._exceptions import NamePartTooLongException
+from .._logger import log
 from .._protocol.incoming import DNSIncoming
 from .._services.info import ServiceInfo
 from .._transport import _WrappedTransport
@@ -426,7 +428,15 @@ class QueryHandler:
             # When sending unicast, only send back the reply
             # via the same socket that it was recieved from
             # as we know its reachable from that socket
-            self.zc.async_send(out, addr, port, v6_flow_scope, transport)
+            try:
+                self.zc.async_send(out, addr, port, v6_flow_scope, transport)
+            except NamePartTooLongException:
+                # A question whose label was not valid utf-8 grows when it is
+                # decoded with replacement characters and may no longer fit a label:
+                # answer without echoing the questions
+                log.debug("Unable to echo the questions from %s:%s in a unicast reply", addr, port)
+                out = construct_outgoing_unicast_answers(question_answers.ucast, False, questions, id_)
+                self.zc.async_send(out, addr, port, v6_flow_scope, transport)
         if question_answers.mcast_now:
             self.zc.async_send(construct_outgoing_multicast_answers(question_answers.mcast_now))
         # A truncated query is answered after its packets have been held for a while,
